@@ -96,22 +96,26 @@ TReplace(e) ==
             /\ Obl("C02_RejectedReplaceChangedState", StOK(r, e.st))
   /\ UNCHANGED <<up, own, nextAuth, acked, usedCmds>> /\ Keep
 
+\* An Install call does not by itself change what the node is: until it returns, the node stays
+\* whatever it was (a same-authority re-install of a ready owner is an idempotent no-op in the code
+\* and creates no new "became writable" point).
 TInstallCall(e) ==
   /\ callAt' = [callAt EXCEPT ![e.n] = step + 1]
-  /\ own' = [own EXCEPT ![e.n].phase = "none"]
   /\ wfAuths' = IF e.wf THEN wfAuths \cup {e.auth} ELSE wfAuths
   /\ bad' = ""
-  /\ UNCHANGED <<log, committed, up, nextAuth, acked, usedCmds, fence, cmdSnap, receipts>>
+  /\ UNCHANGED <<log, committed, up, own, nextAuth, acked, usedCmds, fence, cmdSnap, receipts>>
 
 \* err classes: "stale" / "invalid" = refused before fencing; anything else may have fenced
 TInstallRet(e) ==
-  LET n == e.n IN
+  LET n == e.n
+      noop == own[n].phase = "ready" /\ own[n].auth = e.auth IN
   /\ IF e.ok
-       THEN /\ own' = [own EXCEPT ![n] = [NoOwn EXCEPT !.auth = e.auth, !.phase = "ready", !.readyAt = callAt[n]]]
+       THEN /\ own' = IF noop THEN own
+                      ELSE [own EXCEPT ![n] = [NoOwn EXCEPT !.auth = e.auth, !.phase = "ready", !.readyAt = callAt[n]]]
             /\ fence' = [fence EXCEPT ![n] = Max2(@, e.auth)]
             /\ Obl("C04_OlderAuthorityInstalled", e.auth >= fence[n] /\ e.auth \notin wfAuths)
-       ELSE /\ own' = [own EXCEPT ![n].phase = "none"]
-            /\ fence' = IF e.err \in {"stale", "invalid", "conflict_same"} THEN fence ELSE [fence EXCEPT ![n] = Max2(@, e.auth)]
+       ELSE /\ own' = IF e.err \in {"stale", "invalid"} THEN own ELSE [own EXCEPT ![n].phase = "none"]
+            /\ fence' = IF e.err \in {"stale", "invalid"} THEN fence ELSE [fence EXCEPT ![n] = Max2(@, e.auth)]
             /\ bad' = ""
   /\ UNCHANGED <<log, committed, up, nextAuth, acked, usedCmds, callAt, cmdSnap, receipts, wfAuths>>
 
@@ -135,6 +139,8 @@ TCommitRet(e) ==
        ELSE IF ~(e.first >= 1 /\ e.last - e.first + 1 = e.nrec /\ e.last <= Len(log[n]))
          THEN "C03_ReceiptNotExact"
        ELSE IF \E i \in e.first..e.last : log[n][i].c # e.cmd THEN "C03_ReceiptNotItsCommand"
+       \* the receipt is for exactly the submitted content (identical content <=> same range)
+       ELSE IF \E i \in e.first..e.last : log[n][i].ph # e.phs[i - e.first + 1] THEN "C03_ReceiptForOtherContent"
        ELSE IF \E i \in 1..Len(log[n]) : log[n][i].c = e.cmd /\ ~InRange(i, rc) THEN "C03_CommandStoredTwice"
        ELSE IF known /\ (receipts[e.cmd].first # e.first \/ receipts[e.cmd].last # e.last) THEN "C03_RetryChangedRange"
        ELSE IF \E c2 \in DOMAIN receipts : c2 # e.cmd /\ ~(receipts[c2].last < e.first \/ receipts[c2].first > e.last)
